@@ -149,6 +149,8 @@ class Watch:
         while True:
             item = await self.queue.get()
             if isinstance(item, tuple):
+                if item[1] == 'clienttimeout':           # aiohttp.ClientTimeout(total=...) of the streaming request has run out
+                    raise asyncio.TimeoutError()
                 if item[1] == 'conn':
                     raise aiohttp.ClientConnectionError('simulated connection loss')
                 if item[1] == 'payload':
@@ -226,6 +228,7 @@ class Req:
         self.gate_before: asyncio.Future | None = None      # manual holds (lock-step replay)
         self.gate_after: asyncio.Future | None = None
         self.applied = False; self.result: Any = None; self.route: dict[str, Any] = {}
+        self.timeout: Any = None                             # the aiohttp.ClientTimeout the caller passed, if any
 
     def release_before(self) -> None:
         if self.gate_before is not None and not self.gate_before.done():
@@ -277,6 +280,7 @@ class FakeSession:
             await self._forever()
         srv = self.srv
         req = Req(self, method, url, copy.deepcopy(json), headers)
+        req.timeout = timeout
         srv.parse_route(req)
         plan = srv.policy(req) if srv.policy is not None else Plan()
         plan = plan or Plan()
@@ -308,7 +312,7 @@ class FakeSession:
             if self.dead:
                 await self._forever()
             if fault is not None:
-                srv.rec('srv.fault', req=req.id, loop=self.owner, fault=fault.kind, code=fault.code, route=req.route.get('kind'), name=req.route.get('name'))
+                srv.rec('srv.fault', req=req.id, loop=self.owner, fault=fault.kind, code=fault.code, route=req.route.get('kind'), name=req.route.get('name'), plural=req.route.get('plural'), ns=req.route.get('ns'))
                 if fault.kind == 'conn':
                     raise aiohttp.ClientConnectionError('simulated connection error')
                 if fault.kind == 'timeout':
@@ -591,6 +595,14 @@ class FakeK8s:
                 for rv, typ, snap in self.log[res.key]:
                     if rv > since and w.matches(snap):
                         w.commit({'type': typ, 'object': copy.deepcopy(snap)})
+            # ?timeoutSeconds=N: the server ends the stream cleanly after N seconds; ClientTimeout(total=M): the client gives up after M
+            loop = asyncio.get_running_loop()
+            tsec = req.query.get('timeoutSeconds', [None])[0]
+            if tsec is not None:
+                loop.call_later(float(tsec), w.end, 'eof')
+            total = getattr(req.timeout, 'total', None)
+            if total is not None:
+                loop.call_later(float(total), w.end, 'clienttimeout')
             return Resp(200, None, watch=w)
         name = r['name']
         key = (res.key, ns if res.namespaced else None, name)
